@@ -20,8 +20,8 @@ pub const SPECS: &[PropSpec] = &[
     PropSpec { id: "C18", level: "exploration", quick_runs: 8_000, thorough_runs: 200_000,
         rule: "seeded history H over 2-5 queues sharing files, with restarts; for every queue q the projection H|q (calls addressed to q + restarts/persists/ticks) runs on a fresh simulated disk; oracle (no reference model): outcomes of q's calls and exists/range/last_position/last_record of q agree at every corresponding point. Crash variant: crash inside a call addressed to another queue at sampled effect boundaries and torn writes, recover, q must equal its projection; under flush-per-call policies always, under DoNothing/OnDelay only when every call addressed to q had reached the OS (explicit persist, create/delete of any queue or clean restart after q's last call) before the crash. Non-trivial: a call addressed to another queue deleted a WAL file during the history. Distinct: history signature x q.",
         assumptions: &["process-crash model for the crash variant"] },
-    PropSpec { id: "C07", level: "exploration", quick_runs: 20_000, thorough_runs: 3_000_000,
-        rule: "directed histories: filler appends steer the write cursor so that r bytes remain in the block (r in 0..=24 or random), then an entry whose length leaves r' bytes (r' in 0..=24 or random) after spanning {0,1,2,3,5} extra blocks (up to ~160 KiB: crosses 1-2 four-block files), followed by {empty-payload append, 1-frame entry, multi-block entry, truncate, restart, restart-then-append}; thorough adds the complete 25x25x5x6 grid. Oracle: (a) an independent WAL parser reads back from the SimFs image exactly the entries the calls should have produced, frames never cross a block, padding only where < 7 B remained; (b) after restart the crate's own reader yields the model state; (c) the next write lands where the parser says the log ends. Non-trivial: entry under test spans >= 2 frames, or r < 8, or r' < 8, or crosses a file end. Distinct: (r class, r' class, blocks spanned, follow-up kind).",
+    PropSpec { id: "C07", level: "exploration", quick_runs: 22_000, thorough_runs: 3_000_000,
+        rule: "directed histories: filler appends steer the write cursor so that r bytes remain in the block (r in 0..=24 or random), then an entry whose length leaves r' bytes (r' in 0..=24 or random) after spanning {0,1,2,3,5} extra blocks (up to ~160 KiB: crosses 1-2 four-block files), followed by {empty-payload append, 1-frame entry, multi-block entry, truncate, restart, restart-then-append, torn tail: the process dies inside a following multi-block entry (flush-per-call policies), recovery, three more entries, restart}; the first 21 875 run indices walk the complete 25x25x5x7 grid, later ones draw random cells. Oracle: (a) an independent WAL parser reads back from the SimFs image exactly the entries the calls should have produced, frames never cross a block, padding only where < 7 B remained; (b) after restart the crate's own reader yields the model state; (c) the next write lands where the parser says the log ends. Non-trivial: entry under test spans >= 2 frames, or r < 8, or r' < 8, or crosses a file end. Distinct: (r class, r' class, blocks spanned, follow-up kind).",
         assumptions: &["pure input-space statement: no fault is injected; the simulator contributes simulated files, restart at the same alignment and cursor steering"] },
 ];
 
@@ -255,7 +255,7 @@ pub fn run_c07(prop: &str, seed: u64, index: usize, _tier: Tier) -> RunReport {
             r: if rng.chance(1, 2) { rng.usize_below(25) } else { rng.usize_below(32768) },
             r2: if rng.chance(1, 2) { rng.usize_below(25) } else { rng.usize_below(32768) },
             extra: *rng.pick(&EXTRAS),
-            follow: rng.below(6) as u8,
+            follow: rng.below(7) as u8,
         }
     };
     let (case, d, aimed) = directed(seed, cell);
@@ -288,6 +288,39 @@ pub fn run_c07(prop: &str, seed: u64, index: usize, _tier: Tier) -> RunReport {
     for f in fails {
         rep.found.push(Found { prop: prop.to_string(), clause: f.clause, detail: f.detail, case: case.clone(), fault: Fault::None });
         break;
+    }
+    // torn tail: the process dies inside the multi-block entry that follows the entry under test; entries
+    // written after recovery start right behind the torn fragments and must round-trip like any other
+    if cell.follow == 6 && rep.found.is_empty() && d.conformance_ok() && matches!(case.policy, Policy::Always { .. }) {
+        let b = d.steps.len().saturating_sub(2); // the multi-block append before the final restart
+        if let Some(st) = d.steps.get(b).filter(|s| matches!(s.op, Op::Append { .. })) {
+            let writes: Vec<(usize, usize)> = {
+                let fs = d.world.fs.borrow();
+                (st.eff_start..st.eff_end).filter_map(|i| if let Eff::Write { data, .. } = &fs.trace[i].eff { Some((i, data.len())) } else { None }).collect()
+            };
+            if writes.len() >= 2 {
+                // after the first write of the entry, inside a later one
+                let (wi, wlen) = writes[1 + rng.usize_below(writes.len() - 1)];
+                let byte = match rng.below(4) { 0 => None, 1 => Some(rng.usize_below(7).min(wlen - 1).max(1)), 2 => Some(1 + rng.usize_below(wlen - 1)), _ => Some(wlen - 1) };
+                let image = crate::crash::os_image_at(&d, wi, byte);
+                let cont = vec![
+                    Op::Append { q: 1, pos: None, lens: vec![rng.below(60) as u32], uid: 900_001 },
+                    Op::Append { q: 1, pos: None, lens: vec![(20_000 + rng.below(60_000)) as u32], uid: 900_003 },
+                    Op::Append { q: 1, pos: None, lens: vec![rng.below(3000) as u32, 0, 17], uid: 900_005 },
+                    Op::Restart { policy: None },
+                ];
+                let mut stats = crate::crash::CrashStats::default();
+                let o = crate::crash::test_process_crash(&d, &case, b, &image, crate::crash::Cont::Explicit(&cont), &mut stats, None);
+                rep.evaluations += 1;
+                rep.count("fault_process_crash_torn_tail", 1);
+                if let Some(f) = o.failures.iter().find(|f| f.prop == "C02") {
+                    rep.found.push(Found {
+                        prop: prop.to_string(), clause: format!("torn-tail-{}", f.clause), detail: f.detail.clone(), case: case.clone(),
+                        fault: Fault::Crash { at: CrashPoint { op: b, eff_in_op: wi - st.eff_start, byte, powerloss: None }, second: None, cont },
+                    });
+                }
+            }
+        }
     }
     if index < 3 {
         rep.sample = Some(json!({"cell": format!("{cell:?}"), "aimed_exactly": aimed, "history": d.steps.iter().map(|s| format!("{} -> {:?}", s.op.short(), s.outcome)).collect::<Vec<_>>(), "verdict": if rep.found.is_empty() { "held" } else { "VIOLATION" }}));
